@@ -4,6 +4,8 @@ import N2k.Lemmas.TPRecv
 import N2k.Lemmas.TPRecvStep
 import N2k.Lemmas.TPTime
 import N2k.Lemmas.TPLinkMain
+import N2k.Lemmas.TPLinkBam
+import N2k.Lemmas.TPPacing
 /-!
 # C10 — ISO transport protocol transfers complete intact or abort cleanly
 
@@ -14,17 +16,6 @@ back-pressure the frames still leave through the send queue of C11 and the trans
 -/
 namespace N2k.C10
 open N2k.Send N2k.Time N2k.Spec N2k.TP
-
-/-- the example node of the non-vacuity examples: one device at address 20, 64-bit scheduler, idle -/
-def exDev : Dev := { source := 20, name := 1, claimTimer := Sched.disabled .t64, endSource := 19 }
-def exSt : St := { flavor := .t64, now := 1000, listenOnly := false, claimMode := true, lists := {}, devs := [exDev],
-                   ring := { n := 40, buf := fun _ => ⟨0, 0, []⟩, read := 0, write := 0 },
-                   drv := { script := [], dflt := true, sent := [] } }
-def exNode : Node := { s := exSt, tp := fun _ => TpDev.init .t64, slots := List.replicate 5 {}, onlyKnown := false, rxq := [], out := [] }
-def exMsg : Msg := { prio := 6, pgn := 126464, src := 0, dst := 30, len := 20, data := List.range 20, tp := true }
-
-theorem exQuiet : Quiet exSt 0 :=
-  ⟨⟨exDev, rfl, by decide, by decide⟩, rfl, rfl, rfl, rfl, rfl, by decide, by decide⟩
 
 /-! ## packetisation -/
 
@@ -143,29 +134,6 @@ theorem C10_cts_frame_dispatch (n : Node) (i src dst b1 b2 pgn : Nat) (hs : src 
 
 /-! ## BAM pacing -/
 
-def atTime (n : Node) (t : Nat) : Node := { n with s := { n.s with now := t } }
-
-/-- `SendPendingTPMessage` does not touch the clock and leaves either no transfer or the timer re-armed from now -/
-theorem pendingTP_bam_timer (n : Node) (i : Nat) (hb : (n.tp i).pend.dst = 255) (hp : (n.tp i).pend.pgn ≠ 0)
-    (ht : (n.tp i).timer.isTime n.s.flavor n.s.now = true) :
-    (pendingTP n i).s.now = n.s.now ∧ (pendingTP n i).s.flavor = n.s.flavor ∧
-    (((pendingTP n i).tp i).pend.pgn = 0 ∨ ((pendingTP n i).tp i).timer = Sched.fromNow n.s.flavor n.s.now 50) := by
-  unfold pendingTP
-  simp only [hp, ne_eq, not_false_eq_true, ht, and_self, ↓reduceIte, hb]
-  have hc := sendMsg_clock (n.setTp i { n.tp i with nextSeq := ((n.tp i).nextSeq + 1) % 256 }).s
-    (dtMsg (srcAddr n i) (n.tp i).pend (n.tp i).nextSeq) (some i)
-  have hnow : (sendTPDT n i).1.s.now = n.s.now := hc.1
-  have hfl : (sendTPDT n i).1.s.flavor = n.s.flavor := hc.2
-  split
-  · refine ⟨?_, ?_, Or.inl ?_⟩
-    · simp [endSendTP, setTimer, Node.setTp, hnow]
-    · simp [endSendTP, setTimer, Node.setTp, hfl]
-    · simp [endSendTP, Node.setTp]
-  · refine ⟨?_, ?_, Or.inr ?_⟩
-    · simp [setTimer, Node.setTp, hnow]
-    · simp [setTimer, Node.setTp, hfl]
-    · simp [setTimer, Node.setTp, hnow, hfl]
-
 /-- **BAM pacing.** When a poll at time `t1` sends a BAM data packet (`SendPendingTPMessage` with the timer due), then any
 poll at a time `t2` with `t1 ≤ t2 < t1 + 50` changes nothing - in particular sends nothing: consecutive data packets are
 at least 50 ms apart, for both scheduler flavours and whatever the driver does. (The first data packet is at least
@@ -193,45 +161,6 @@ theorem C10_bam_pacing_exact (t1 t2 : Nat) (h64 : t1 + 50 < M64) :
     (∀ f, t1 ≤ t2 → t2 < t1 + 50 → (Sched.fromNow f t1 50).isTime f t2 = false) :=
   ⟨isTime_fromNow_t64 t1 t2 50 h64, isTime_fromNow_t32_at t1 50,
    fun f a b => isTime_fromNow_late f t1 t2 50 a b h64, fun f a b => isTime_fromNow_early f t1 t2 50 a b (by omega) h64⟩
-
-theorem emit_tp (n : Node) (m : Msg) (i : Nat) : (emit n m i).1.tp = n.tp := rfl
-theorem emit_clock (n : Node) (m : Msg) (i : Nat) : (emit n m i).1.s.now = n.s.now ∧ (emit n m i).1.s.flavor = n.s.flavor :=
-  sendMsg_clock n.s m (some i)
-
-/-- a transfer that `StartSendTPMessage` accepted has its timer armed 50 ms from now -/
-theorem startSendTP_timer (n : Node) (m : Msg) (i : Nat) (hok : (startSendTP n m i).2 = true) :
-    ((startSendTP n m i).1.tp i).timer = Sched.fromNow n.s.flavor n.s.now 50 ∧ ((startSendTP n m i).1.tp i).pend = m ∧
-    (startSendTP n m i).1.s.flavor = n.s.flavor := by
-  unfold startSendTP at hok ⊢
-  by_cases hi : i ≥ n.s.devs.length
-  · simp [hi] at hok
-  by_cases hpend : (n.tp i).pend.pgn ≠ 0
-  · simp [hi, hpend] at hok
-  rw [if_neg hi, if_neg hpend] at hok ⊢
-  simp only at hok ⊢
-  generalize hn1 : n.setTp i { pend := m, nextSeq := 0, timer := Sched.fromNow n.s.flavor n.s.now 50, hasPending := true } = n1 at hok ⊢
-  have ht1 : (n1.tp i).timer = Sched.fromNow n.s.flavor n.s.now 50 ∧ (n1.tp i).pend = m ∧ n1.s.flavor = n.s.flavor := by
-    subst hn1; simp
-  have key : ∀ r : Node × Bool, r.1.tp = n1.tp → r.1.s.flavor = n1.s.flavor →
-      (if r.2 = true then (r.1, true) else (endSendTP r.1 i, false)).2 = true →
-      (((if r.2 = true then (r.1, true) else (endSendTP r.1 i, false)).1.tp i).timer = Sched.fromNow n.s.flavor n.s.now 50 ∧
-       ((if r.2 = true then (r.1, true) else (endSendTP r.1 i, false)).1.tp i).pend = m ∧
-       (if r.2 = true then (r.1, true) else (endSendTP r.1 i, false)).1.s.flavor = n.s.flavor) := by
-    intro r h1 h2 h3
-    by_cases hr : r.2 = true
-    · rw [if_pos hr]; simp only; rw [h1, h2]; exact ht1
-    · rw [if_neg hr] at h3; simp at h3
-  by_cases hm : m.dst = 0xff
-  · rw [if_pos hm] at hok ⊢
-    unfold sendBAM at hok ⊢
-    by_cases hcm : ¬ n1.s.claimMode = true
-    · rw [if_pos hcm] at hok ⊢; exact key _ rfl rfl hok
-    · rw [if_neg hcm] at hok ⊢; exact key _ (emit_tp _ _ _) (emit_clock _ _ _).2 hok
-  · rw [if_neg hm] at hok ⊢
-    unfold sendRTS at hok ⊢
-    by_cases hcm : ¬ n1.s.claimMode = true
-    · rw [if_pos hcm] at hok ⊢; exact key _ rfl rfl hok
-    · rw [if_neg hcm] at hok ⊢; exact key _ (emit_tp _ _ _) (emit_clock _ _ _).2 hok
 
 /-- the first data packet of a BAM transfer is not sent before 50 ms after the announce -/
 theorem C10_bam_first_packet (n : Node) (m : Msg) (i t2 : Nat)
@@ -321,6 +250,69 @@ theorem C10_receiver (n : Node) (src dst i : Nat) (d : Dev) (hq : Quiet n.s i) (
 example : Quiet exNode.s 0 ∧ exNode.s.devs[0]? = some exDev ∧ findDev exNode.s.devs 20 = some 0 ∧ (∃ a ∈ exNode.slots, a.free = true) :=
   ⟨exQuiet, rfl, by decide, ⟨{}, by simp [exNode], rfl⟩⟩
 
+/-- **Receiver, BAM.** A BAM `[32, size, packets, _, PGN]` (destination 255) for a message the node can hold, with a receive
+slot free, is answered by nothing; its data packets never produce a frame; the packet with the expected number that
+completes the announced size calls the handler exactly once (PGN of the BAM, source, destination 255, announced length,
+collected bytes cut at that length) and frees the slot; a packet with another number frees the slot and nothing is
+delivered. No hypothesis on the node's ability to transmit is needed. -/
+theorem C10_receiver_bam (n : Node) (src : Nat) (hsrc : src < 256) :
+    (∀ size npk mx pgn, pgn < 2^24 → size ≤ 223 → (∃ a ∈ n.slots, a.free = true) →
+      ((checkKnown pgn).1 = true ∨ ¬ n.onlyKnown = true) →
+      ∃ j a0, rxFrame n (cmIn src 255 ([32, size % 256, size / 256, npk, mx] ++ pgnBytes pgn)) =
+          { n with slots := (n.slots.map (freeSess src 255)).set j (bamSlot a0 pgn src 255 (millis32 n.s.now) size npk) } ∧
+        (n.slots.map (freeSess src 255))[j]? = some a0 ∧
+        findIdx (sessOf src 255) ((n.slots.map (freeSess src 255)).set j (bamSlot a0 pgn src 255 (millis32 n.s.now) size npk)) = some j) ∧
+    (∀ j a buf, findIdx (sessOf src 255) n.slots = some j → n.slots[j]? = some a → a.reqCTS = 0 → buf.length = 8 →
+      (a.lastFrame + 1 = buf.getD 0 0 → (copyBuf a.data 1 8 buf).length ≥ a.dataLen →
+        rxFrame n (dtIn src 255 buf) =
+          { n with slots := n.slots.set j (freeMessage { a with data := copyBuf a.data 1 8 buf, lastFrame := buf.getD 0 0,
+                                                                 msgTime := millis32 n.s.now }),
+                   out := n.out ++ [{ pgn := a.pgn, src := a.src, dst := a.dst, prio := a.prio, len := a.dataLen, tp := a.tp,
+                                      data := (copyBuf a.data 1 8 buf).take a.dataLen }] }) ∧
+      (a.lastFrame + 1 = buf.getD 0 0 → (copyBuf a.data 1 8 buf).length < a.dataLen →
+        rxFrame n (dtIn src 255 buf) =
+          { n with slots := n.slots.set j { a with data := copyBuf a.data 1 8 buf, lastFrame := buf.getD 0 0,
+                                                   msgTime := millis32 n.s.now } }) ∧
+      (a.lastFrame + 1 ≠ buf.getD 0 0 →
+        rxFrame n (dtIn src 255 buf) = { n with slots := n.slots.set j (freeMessage a) })) := by
+  refine ⟨?_, ?_⟩
+  · intro size npk mx pgn hp hsz hfree hknown
+    have hb : ([32, size % 256, size / 256, npk, mx] ++ pgnBytes pgn).length = 8 := by simp [pgnBytes]
+    rw [rxFrame_cm n src 255 _ hsrc (by omega) hb]
+    unfold handleCM
+    have hpg : pgn % 256 + pgn / 256 % 256 * 256 + pgn / 65536 % 256 * 65536 = pgn := by omega
+    have hsize : size % 256 + size / 256 * 256 = size := by omega
+    simp only [pgnBytes, List.cons_append, List.nil_append, List.getD_cons_zero, List.getD_cons_succ, hpg, hsize]
+    simp only [Nat.reduceEqDiff, true_or, ↓reduceIte]
+    obtain ⟨j, a0, hj, ha0⟩ := start_slot_exists n.slots pgn src 255 hfree
+    refine ⟨j, a0, handleStart_listen n src 255 pgn size npk j _ _ a0 (by simp) hsz hknown hj ha0, ha0, ?_⟩
+    apply findIdx_set_of_none
+    · apply findIdx_none_of_all
+      intro b hb'
+      obtain ⟨c, _, hc⟩ := List.mem_map.1 hb'
+      rw [← hc]; exact sessOf_freeSess src 255 c
+    · exact findIdx_lt _ _ _ hj
+    · simp [sessOf, bamSlot, startSlot]
+  · intro j a buf hj ha hreq hb
+    have hjl : j < n.slots.length := findIdx_lt _ _ _ hj
+    have hrx := rxFrame_dt n src 255 buf hsrc (by omega) hb
+    rw [handleData_silent n src 255 j 8 a buf hj ha hreq] at hrx
+    refine ⟨?_, ?_, ?_⟩
+    · intro hseq hdone
+      rw [hrx, if_pos hseq, if_pos hdone]
+      simp only [finish]
+      unfold deliver
+      simp [Node.setSlot, List.getElem?_set_self hjl]
+    · intro hseq hmore
+      rw [hrx, if_pos hseq, if_neg (by omega)]
+      rfl
+    · intro hseq
+      rw [hrx, if_neg hseq]
+      rfl
+
+example : (∃ a ∈ exNode.slots, a.free = true) ∧ ((checkKnown 126996).1 = true ∨ ¬ exNode.onlyKnown = true) :=
+  ⟨⟨{}, by simp [exNode], rfl⟩, Or.inl (by decide)⟩
+
 /-! ## timeouts -/
 
 /-- **Timeouts (sending side).** A transfer to a destination that `StartSendTPMessage` accepted at time `t0` and that gets
@@ -392,33 +384,36 @@ example : slotHit 126996 30 20 true { free := false, tp := true, pgn := 126998, 
 
 /-- **End to end (RTS/CTS), partial.** Node A (one device `da`) hands a transport-flagged message of 9..223 bytes for the
 address of node B (one device `db`) to `SendMsg`. Both nodes are quiet, A has no transfer pending, B has a free receive slot
-and may hold the message (PGN known or filter off); the channel `wire` carries every frame, in order, into the other node's
-receive queue; `round` = B polls (`ParseMessages`), then A polls. Then `SendMsg` succeeds and after at most 33 rounds
-B's handler has been called exactly once - with the PGN, A's address as source, B's address as destination, the
-length and exactly the payload bytes - A's transfer is over (nothing pending, `StartSendTPMessage` is free again) and no
-frame is left in flight.
+and may hold the message (PGN known or filter off). The channel `wire` carries every frame, in order, into the other node's
+receive queue. A schedule is a list of delays `(dB, dA)`: in each `round` B polls (`ParseMessages`) `dB` ms after its
+previous poll, then A polls `dA` ms after its previous poll - any `dB`, any `dA < 100` (first one `< 50`: the sender's
+timeouts), the two clocks need not agree. Then `SendMsg` succeeds and after at most 33 rounds of ANY such schedule B's
+handler has been called exactly once - with the PGN, A's address as source, B's address as destination, the length and exactly
+the payload bytes - A's transfer is over (nothing pending, `StartSendTPMessage` is free again) and no frame is left in flight.
+Polls in between with nothing to receive change nothing (`poll_idle`), so schedules with extra polls reduce to these.
 
-What is missing for the full statement of DESIGN (hence `_partial`): no time passes during the exchange (both clocks
-stand still, so no timer can fire between frames: the "at least one poll per timeout" schedules are not quantified over);
-one device per node; BAM is not composed here (its sending side is `C10_bam_pacing` / `C10_bam_first_packet`, its
-receiving side is the same `handleData` path as in `C10_receiver`, without responses). -/
-theorem C10_end_to_end_partial (a b : Node) (da db : Dev) (m : Msg)
-    (hda : a.s.devs = [da]) (hdb : b.s.devs = [db]) (hqa : Quiet a.s 0) (hqb : Quiet b.s 0) (h64 : a.s.now + 100 < M64)
+What is missing for the full statement of DESIGN (hence `_partial`): one device per node; each node polls once per exchange
+(A and B strictly alternate); the BAM composition is `C10_end_to_end_bam_partial`. -/
+theorem C10_end_to_end_partial (a b : Node) (da db : Dev) (m : Msg) (ds : List (Nat × Nat))
+    (hda : a.s.devs = [da]) (hdb : b.s.devs = [db]) (hqa : Quiet a.s 0) (hqb : Quiet b.s 0)
     (haIdle : (a.tp 0).pend.pgn = 0) (haSent : a.s.drv.sent = []) (haRx : a.rxq = [])
     (hbIdle : (b.tp 0).hasPending = false) (hbSent : b.s.drv.sent = []) (hbRx : b.rxq = []) (hbOut : b.out = [])
     (hbFree : ∃ sl ∈ b.slots, sl.free = true) (hknown : (checkKnown m.pgn).1 = true ∨ ¬ b.onlyKnown = true)
     (htp : m.tp = true) (h9 : 9 ≤ m.len) (h223 : m.len ≤ 223) (hdata : m.len ≤ m.data.length)
     (hdst : m.dst = db.source) (hlow : m.pgn &&& 0xff = 0) (hp0 : m.pgn ≠ 0) (hp24 : m.pgn < 2^24)
-    (hid : n2kToCanId m.prio m.pgn da.source m.dst ≠ 0) :
+    (hid : n2kToCanId m.prio m.pgn da.source m.dst ≠ 0)
+    (hlen : 33 ≤ ds.length) (hfirst : ∀ p, ds.head? = some p → p.2 < 50) (hall : ∀ p ∈ ds, p.2 < 100)
+    (h64 : a.s.now + totalA ds + 100 < M64) :
     (sendMsgTP a m (some 0)).2 = true ∧
     ∃ r, r ≤ 33 ∧
-      (rounds r ((sendMsgTP a m (some 0)).1, b)).2.out =
+      (rounds (ds.take r) ((sendMsgTP a m (some 0)).1, b)).2.out =
         [{ pgn := m.pgn, src := da.source, dst := db.source, prio := 7, len := m.len, tp := true, data := m.data.take m.len }] ∧
-      ((rounds r ((sendMsgTP a m (some 0)).1, b)).1.tp 0).pend.pgn = 0 ∧
-      ((rounds r ((sendMsgTP a m (some 0)).1, b)).1.tp 0).hasPending = false ∧
-      (rounds r ((sendMsgTP a m (some 0)).1, b)).1.s.drv.sent = [] ∧
-      (rounds r ((sendMsgTP a m (some 0)).1, b)).2.s.drv.sent = [] ∧
-      (rounds r ((sendMsgTP a m (some 0)).1, b)).1.rxq = [] ∧ (rounds r ((sendMsgTP a m (some 0)).1, b)).2.rxq = [] := by
+      ((rounds (ds.take r) ((sendMsgTP a m (some 0)).1, b)).1.tp 0).pend.pgn = 0 ∧
+      ((rounds (ds.take r) ((sendMsgTP a m (some 0)).1, b)).1.tp 0).hasPending = false ∧
+      (rounds (ds.take r) ((sendMsgTP a m (some 0)).1, b)).1.s.drv.sent = [] ∧
+      (rounds (ds.take r) ((sendMsgTP a m (some 0)).1, b)).2.s.drv.sent = [] ∧
+      (rounds (ds.take r) ((sendMsgTP a m (some 0)).1, b)).1.rxq = [] ∧
+      (rounds (ds.take r) ((sendMsgTP a m (some 0)).1, b)).2.rxq = [] := by
   have hdb251 : db.source ≤ 251 := by
     obtain ⟨d', hd', hs, _⟩ := hqb.dev
     rw [hdb] at hd'; simp at hd'; subst hd'; exact hs
@@ -428,30 +423,38 @@ theorem C10_end_to_end_partial (a b : Node) (da db : Dev) (m : Msg)
   refine ⟨rfl, ?_⟩
   obtain ⟨j, a0, hj, ha0⟩ := start_slot_exists b.slots m.pgn da.source db.source hbFree
   have hL : LinkHyp a b da db (pendMsg m da) j (b.slots.map (freeSess da.source db.source)) a0 :=
-    ⟨hda, hdb, hqa, hqb, h64, hbIdle, hdst, h9, h223, hdata, hp24, hp0, hknown, rfl, hj, ha0⟩
+    ⟨hda, hdb, hqa, hqb, hbIdle, hdst, h9, h223, hdata, hp24, hp0, hknown, rfl, hj, ha0⟩
   have hb : b = b.upd b.tp b.slots [] [] [] := by
     have := (upd_self b).symm
     rw [hbOut, hbSent, hbRx] at this; exact this
   have hnp : 2 ≤ tpPacketCount m.len := by unfold tpPacketCount; omega
   have hnp32 := tpPacketCount_le m.len h223
   have hcpos := tpCtsPackets_pos (tpPacketCount m.len)
-  obtain ⟨r, S'', hr, hR⟩ := rounds_complete hL 32 0 (Nat.zero_mod _) (by show 0 < tpPacketCount m.len; omega) (by
-    show tpPacketCount m.len - 0 ≤ 32 * tpCtsPackets (tpPacketCount m.len)
-    have : 32 * 1 ≤ 32 * tpCtsPackets (tpPacketCount m.len) := Nat.mul_le_mul_left 32 hcpos
-    omega)
+  obtain ⟨p, ds', hds⟩ : ∃ p ds', ds = p :: ds' := by
+    cases ds with
+    | nil => simp at hlen
+    | cons p t => exact ⟨p, t, rfl⟩
+  subst hds
+  have hp50 : p.2 < 50 := hfirst p rfl
+  have htot : totalA (p :: ds') = p.2 + totalA ds' := by simp [totalA]
+  obtain ⟨r, S'', tA', tB', hr, hR⟩ := rounds_complete hL 32 0 (a.s.now + p.2) (b.s.now + p.1) (millis32 (b.s.now + p.1)) ds'
+    (Nat.zero_mod _) (by show 0 < tpPacketCount m.len; omega) (by
+      show tpPacketCount m.len - 0 ≤ 32 * tpCtsPackets (tpPacketCount m.len)
+      have : 32 * 1 ≤ 32 * tpCtsPackets (tpPacketCount m.len) := Nat.mul_le_mul_left 32 hcpos
+      omega) (by simp at hlen; omega) (fun q hq => hall q (by simp [hq])) (by omega)
   refine ⟨r + 1, by omega, ?_⟩
-  have hfirst := round_first hL
-  rw [show (pendMsg m da).dst = m.dst from rfl] at hfirst
-  have hpair : (a.upd (txTp a (pendMsg m da) 0 50) a.slots a.out [cmFrame da.source m.dst (announceBytes 16 (pendMsg m da))] [], b)
-      = (a.upd (txTp a (pendMsg m da) 0 50) a.slots a.out [cmFrame da.source m.dst (announceBytes 16 (pendMsg m da))] [],
-         b.upd b.tp b.slots [] [] []) := congrArg (Prod.mk _) hb
-  have hR' : rounds (r + 1) (a.upd (txTp a (pendMsg m da) 0 50) a.slots a.out [cmFrame da.source m.dst (announceBytes 16 (pendMsg m da))] [], b)
-      = (a.upd (doneTp a (pendMsg m da) (tpPacketCount m.len)) a.slots a.out [] [],
-         b.upd b.tp S'' [{ pgn := m.pgn, src := da.source, dst := db.source, prio := 7, len := m.len, tp := true,
-                            data := m.data.take m.len }] [] []) := by
+  have hfirst' := round_first hL a.s.now b.s.now p.1 p.2 hp50 (by omega)
+  rw [show (pendMsg m da).dst = m.dst from rfl] at hfirst'
+  have hpair : (a.upd (txTp a (pendMsg m da) 0 a.s.now 50) a.slots a.out [cmFrame da.source m.dst (announceBytes 16 (pendMsg m da))] [], b)
+      = ((atTime a a.s.now).upd (txTp a (pendMsg m da) 0 a.s.now 50) a.slots a.out [cmFrame da.source m.dst (announceBytes 16 (pendMsg m da))] [],
+         (atTime b b.s.now).upd b.tp b.slots [] [] []) := congrArg (Prod.mk _) hb
+  have hR' : rounds ((p :: ds').take (r + 1))
+        (a.upd (txTp a (pendMsg m da) 0 a.s.now 50) a.slots a.out [cmFrame da.source m.dst (announceBytes 16 (pendMsg m da))] [], b)
+      = ((atTime a tA').upd (doneTp a (pendMsg m da) (tpPacketCount m.len)) a.slots a.out [] [],
+         (atTime b tB').upd b.tp S'' [delivered (pendMsg m da) da.source db.source] [] []) := by
     rw [hpair]
-    simp only [rounds]
-    rw [hfirst]
+    simp only [List.take_succ_cons, rounds]
+    rw [hfirst']
     exact hR
   rw [hR']
   refine ⟨rfl, ?_, ?_, rfl, rfl, rfl, rfl⟩
@@ -459,14 +462,101 @@ theorem C10_end_to_end_partial (a b : Node) (da db : Dev) (m : Msg)
   · simp [doneTp]
 
 /-- the hypotheses of `C10_end_to_end_partial` are satisfiable: the example node talks to a copy of itself at address 30 -/
-example : ∃ (a b : Node) (da db : Dev) (m : Msg), a.s.devs = [da] ∧ b.s.devs = [db] ∧ Quiet a.s 0 ∧ Quiet b.s 0 ∧ a.s.now + 100 < M64 ∧
+example : ∃ (a b : Node) (da db : Dev) (m : Msg) (ds : List (Nat × Nat)), 33 ≤ ds.length ∧ (∀ p, ds.head? = some p → p.2 < 50) ∧
+    (∀ p ∈ ds, p.2 < 100) ∧ a.s.now + totalA ds + 100 < M64 ∧ a.s.devs = [da] ∧ b.s.devs = [db] ∧ Quiet a.s 0 ∧ Quiet b.s 0 ∧
     (a.tp 0).pend.pgn = 0 ∧ a.s.drv.sent = [] ∧ a.rxq = [] ∧ (b.tp 0).hasPending = false ∧ b.s.drv.sent = [] ∧ b.rxq = [] ∧
     b.out = [] ∧ (∃ sl ∈ b.slots, sl.free = true) ∧ ((checkKnown m.pgn).1 = true ∨ ¬ b.onlyKnown = true) ∧
     m.tp = true ∧ 9 ≤ m.len ∧ m.len ≤ 223 ∧ m.len ≤ m.data.length ∧ m.dst = db.source ∧ m.pgn &&& 0xff = 0 ∧ m.pgn ≠ 0 ∧
     m.pgn < 2^24 ∧ n2kToCanId m.prio m.pgn da.source m.dst ≠ 0 := by
   refine ⟨exNode, { exNode with s := { exSt with devs := [{ exDev with source := 30 }] } }, exDev, { exDev with source := 30 }, exMsg,
-    rfl, rfl, exQuiet, ⟨⟨_, rfl, by decide, by decide⟩, rfl, rfl, rfl, rfl, rfl, by decide, by decide⟩, by decide, by decide, rfl, rfl,
+    List.replicate 33 (7, 20), by decide, by decide, by decide, by decide,
+    rfl, rfl, exQuiet, ⟨⟨_, rfl, by decide, by decide⟩, rfl, rfl, rfl, rfl, rfl, by decide, by decide⟩, by decide, rfl, rfl,
     by decide, rfl, rfl, rfl, ⟨{}, by simp [exNode], rfl⟩, by decide, by decide, by decide, by decide, by decide, by decide, by decide,
     by decide, by decide, by decide⟩
+
+/-- **End to end (BAM), partial.** Node A (one device) hands a transport-flagged message of 9..223 bytes for the global
+address to `SendMsg`; node B (one device) listens. Both are quiet, A has nothing pending, B has a free receive slot (free slots
+carry no CTS obligation - `FreeMessage` and the constructor reset it) and may hold the message. Schedule as in
+`C10_end_to_end_partial`, but A polls at least 51 ms (and less than 2^31 ms) after its previous poll: the pacing of
+`C10_bam_pacing` then lets exactly one data packet out per poll. After at most 33 rounds of ANY such schedule B's handler has
+been called exactly once with the PGN, A's address, destination 255, the length and exactly the payload; A's transfer is over;
+nothing is in flight, and B never sent a frame (`C10_receiver_bam`). Missing for the full statement: as in
+`C10_end_to_end_partial` (one device per node, strictly alternating polls). -/
+theorem C10_end_to_end_bam_partial (a b : Node) (da db : Dev) (m : Msg) (ds : List (Nat × Nat))
+    (hda : a.s.devs = [da]) (hdb : b.s.devs = [db]) (hqa : Quiet a.s 0) (hqb : Quiet b.s 0)
+    (haIdle : (a.tp 0).pend.pgn = 0) (haSent : a.s.drv.sent = []) (haRx : a.rxq = [])
+    (hbIdle : (b.tp 0).hasPending = false) (hbSent : b.s.drv.sent = []) (hbRx : b.rxq = []) (hbOut : b.out = [])
+    (hbFree : ∃ sl ∈ b.slots, sl.free = true) (hbInv : ∀ sl ∈ b.slots, sl.free = true → sl.reqCTS = 0)
+    (hknown : (checkKnown m.pgn).1 = true ∨ ¬ b.onlyKnown = true)
+    (htp : m.tp = true) (h9 : 9 ≤ m.len) (h223 : m.len ≤ 223) (hdata : m.len ≤ m.data.length)
+    (hdst : m.dst = 255) (hlow : m.pgn &&& 0xff = 0) (hp0 : m.pgn ≠ 0) (hp24 : m.pgn < 2^24)
+    (hid : n2kToCanId m.prio m.pgn da.source m.dst ≠ 0)
+    (hlen : 33 ≤ ds.length) (hall : ∀ p ∈ ds, 51 ≤ p.2 ∧ p.2 < INT32_MAX) (h64 : a.s.now + totalA ds + 100 < M64) :
+    (sendMsgTP a m (some 0)).2 = true ∧
+    ∃ r, r ≤ 33 ∧
+      (rounds (ds.take r) ((sendMsgTP a m (some 0)).1, b)).2.out =
+        [{ pgn := m.pgn, src := da.source, dst := 255, prio := 7, len := m.len, tp := true, data := m.data.take m.len }] ∧
+      ((rounds (ds.take r) ((sendMsgTP a m (some 0)).1, b)).1.tp 0).pend.pgn = 0 ∧
+      ((rounds (ds.take r) ((sendMsgTP a m (some 0)).1, b)).1.tp 0).hasPending = false ∧
+      (rounds (ds.take r) ((sendMsgTP a m (some 0)).1, b)).1.s.drv.sent = [] ∧
+      (rounds (ds.take r) ((sendMsgTP a m (some 0)).1, b)).2.s.drv.sent = [] ∧
+      (rounds (ds.take r) ((sendMsgTP a m (some 0)).1, b)).1.rxq = [] ∧
+      (rounds (ds.take r) ((sendMsgTP a m (some 0)).1, b)).2.rxq = [] := by
+  have hstart := sendMsgTP_start_bam a m da hqa (by rw [hda]; rfl) hlow hp0 hid htp h9 hdst haIdle
+  rw [haSent, haRx, List.nil_append] at hstart
+  rw [hstart]
+  refine ⟨rfl, ?_⟩
+  obtain ⟨j, a0, hj, ha0⟩ := start_slot_exists b.slots m.pgn da.source 255 hbFree
+  have hreq := found_slot_silent b.slots m.pgn da.source j a0 hbInv hj ha0
+  have hL : BamHyp a b da db (pendMsg m da) j (b.slots.map (freeSess da.source 255)) a0 :=
+    ⟨hda, hdb, hqa, hqb, hbIdle, hdst, h9, h223, hdata, hp24, hp0, hknown, rfl, hj, ha0, hreq⟩
+  have hb : b = b.upd b.tp b.slots [] [] [] := by
+    have := (upd_self b).symm
+    rw [hbOut, hbSent, hbRx] at this; exact this
+  have hnp : 2 ≤ tpPacketCount m.len := by unfold tpPacketCount; omega
+  have hnp32 := tpPacketCount_le m.len h223
+  obtain ⟨p, ds', hds⟩ : ∃ p ds', ds = p :: ds' := by
+    cases ds with
+    | nil => simp at hlen
+    | cons p t => exact ⟨p, t, rfl⟩
+  subst hds
+  have hp51 := hall p (by simp)
+  have htot : totalA (p :: ds') = p.2 + totalA ds' := by simp [totalA]
+  obtain ⟨r, S'', tA', tB', hr, hR⟩ := roundsB_complete hL 32 0 (a.s.now + p.2) (b.s.now + p.1) (millis32 (b.s.now + p.1)) ds'
+    (by show 0 < tpPacketCount m.len; omega) (by show tpPacketCount m.len - 0 ≤ 32; omega) (by simp at hlen; omega)
+    (fun q hq => hall q (by simp [hq])) (by omega)
+  refine ⟨r + 1, by omega, ?_⟩
+  have hfirst' := roundB_first hL a.s.now b.s.now p.1 p.2 hp51 (by omega)
+  have hpair : (a.upd (txTp a (pendMsg m da) 0 a.s.now 50) a.slots a.out [cmFrame da.source 255 (announceBytes 32 (pendMsg m da))] [], b)
+      = ((atTime a a.s.now).upd (txTp a (pendMsg m da) 0 a.s.now 50) a.slots a.out [cmFrame da.source 255 (announceBytes 32 (pendMsg m da))] [],
+         (atTime b b.s.now).upd b.tp b.slots [] [] []) := congrArg (Prod.mk _) hb
+  have hR' : rounds ((p :: ds').take (r + 1))
+        (a.upd (txTp a (pendMsg m da) 0 a.s.now 50) a.slots a.out [cmFrame da.source 255 (announceBytes 32 (pendMsg m da))] [], b)
+      = ((atTime a tA').upd (doneTp a (pendMsg m da) (tpPacketCount m.len)) a.slots a.out [] [],
+         (atTime b tB').upd b.tp S'' [delivered (pendMsg m da) da.source 255] [] []) := by
+    rw [hpair]
+    simp only [List.take_succ_cons, rounds]
+    rw [hfirst']
+    exact hR
+  rw [hR']
+  refine ⟨rfl, ?_, ?_, rfl, rfl, rfl, rfl⟩
+  · simp [doneTp]
+  · simp [doneTp]
+
+example : ∃ (a b : Node) (da db : Dev) (m : Msg) (ds : List (Nat × Nat)), 33 ≤ ds.length ∧ (∀ p ∈ ds, 51 ≤ p.2 ∧ p.2 < INT32_MAX) ∧
+    a.s.now + totalA ds + 100 < M64 ∧ a.s.devs = [da] ∧ b.s.devs = [db] ∧ Quiet a.s 0 ∧ Quiet b.s 0 ∧
+    (a.tp 0).pend.pgn = 0 ∧ a.s.drv.sent = [] ∧ a.rxq = [] ∧ (b.tp 0).hasPending = false ∧ b.s.drv.sent = [] ∧ b.rxq = [] ∧
+    b.out = [] ∧ (∃ sl ∈ b.slots, sl.free = true) ∧ (∀ sl ∈ b.slots, sl.free = true → sl.reqCTS = 0) ∧
+    ((checkKnown m.pgn).1 = true ∨ ¬ b.onlyKnown = true) ∧
+    m.tp = true ∧ 9 ≤ m.len ∧ m.len ≤ 223 ∧ m.len ≤ m.data.length ∧ m.dst = 255 ∧ m.pgn &&& 0xff = 0 ∧ m.pgn ≠ 0 ∧
+    m.pgn < 2^24 ∧ n2kToCanId m.prio m.pgn da.source m.dst ≠ 0 := by
+  refine ⟨exNode, { exNode with s := { exSt with devs := [{ exDev with source := 30 }] } }, exDev, { exDev with source := 30 },
+    { exMsg with dst := 255 }, List.replicate 33 (7, 60), by decide, by decide, by decide,
+    rfl, rfl, exQuiet, ⟨⟨_, rfl, by decide, by decide⟩, rfl, rfl, rfl, rfl, rfl, by decide, by decide⟩, rfl, rfl,
+    rfl, rfl, rfl, rfl, rfl, ⟨{}, by simp [exNode], rfl⟩, ?_, by decide, by decide, by decide, by decide, by decide, by decide,
+    by decide, by decide, by decide, by decide⟩
+  intro sl hsl _
+  simp [exNode] at hsl
+  rw [hsl]
 
 end N2k.C10
